@@ -82,6 +82,21 @@ pub fn run(ctx: &Ctx, r: &mut Report) {
 		c14::check_reversal(&c14::RevCase { left: l, right: rt, xs, tag: "wide".into() }, r);
 		r.cell("wide:reversal");
 	}
+	// u16 build: streams longer than the PeriodType's capacity (the detectors' step counter reaches 65535 and is rebased)
+	// with windows both shorter and longer than 255
+	if pmax == 65535 {
+		for (l, rt) in [(200usize, 100usize), (3, 2), (60, 250)] {
+			k += 1;
+			if !ctx.mine(k) {
+				continue;
+			}
+			let total = 2 * 65536 + 3 * (l + rt) + 500;
+			let xs = c14::rev_stream(100, ctx.seed ^ k, total, (l + rt).min(60));
+			c14::check_reversal(&c14::RevCase { left: l, right: rt, xs, tag: "wide-long".into() }, r);
+			r.cell("wide:reversal:stream-longer-than-PeriodType-capacity");
+			r.count("steps:reversal-beyond-capacity", total as u64);
+		}
+	}
 	// impulse responses at wide lengths (and beyond 65535 for the recursive kinds in the u32/u64 builds)
 	for kind in c15::KINDS {
 		let m = reg::method(kind);
